@@ -1516,4 +1516,153 @@ theorem addBlob_ok (W : World) (rows : SMap Bytes) (c : Corpus) (hr : R2 W rows)
       h1 _ (by rfl : isMissingKey (kDeleted t date dl) = false), get_union]
     cases SMap.get (rowsFor W st' b) (kDeleted t date dl) <;> simp
 
+/-! ### the mirrors are kept by every step -/
+
+theorem COk_congr (rows rows' : SMap Bytes) (c : Corpus)
+    (h : ∀ k, isMissingKey k = false → SMap.get rows' k = SMap.get rows k) (hc : COk rows c) : COk rows' c := by
+  obtain ⟨c1, c2, c3, c4⟩ := hc
+  refine ⟨c1, c2, ?_, ?_⟩
+  · intro k
+    rw [c3 k]
+    by_cases hs : slurped k = true
+    · rw [if_pos hs, if_pos hs, h k (slurped_not_missing k hs)]
+    · rw [if_neg hs, if_neg hs]
+  · intro d
+    obtain ⟨t, dl, date⟩ := d
+    rw [c4, mem_delsOfRows, mem_delsOfRows, h _ (by rfl : isMissingKey (kDeleted t date dl) = false)]
+
+theorem delsOfRows_congr (rows rows' : SMap Bytes)
+    (h : ∀ k, isMissingKey k = false → SMap.get rows' k = SMap.get rows k) (d : Del) :
+    d ∈ delsOfRows rows' ↔ d ∈ delsOfRows rows := by
+  obtain ⟨t, dl, date⟩ := d
+  rw [mem_delsOfRows, mem_delsOfRows, h _ (by rfl : isMissingKey (kDeleted t date dl) = false)]
+
+/-- the four outcomes of ReceiveBlob -/
+theorem receive_cases {W : World} {ver : Nat} {s : State} {seen : List Ref} {skip : Option Ref} (hW : WF W)
+    (h : Inv W ver s seen skip) (hc : CorpusOk s) (b : Ref) :
+    (stOf W s.rows b = .full ∧ s.receive W b = s) ∨
+    (∃ m, stOf W s.rows b ≠ .full ∧ firstMissing W s.src b = some m ∧ s.receive W b = s.noteNeeded b m) ∨
+    (∃ t, stOf W s.rows b ≠ .full ∧ firstMissing W s.src b = none ∧ idep W b = some t ∧
+        stOf W s.rows t = .absent ∧ t ≠ b ∧
+        s.receive W b = (s.noteNeeded b t).commitAll b (rowsFor W .half b) (SMap.get s.rows (kHave b)).isSome) ∨
+    (stOf W s.rows b ≠ .full ∧ firstMissing W s.src b = none ∧ (∀ t, idep W b = some t → stOf W s.rows t ≠ .absent) ∧
+        s.receive W b =
+          (s.commitAll b (rowsFor W .full b) (SMap.get s.rows (kHave b)).isSome).removeAllMissingEdges b) := by
+  unfold State.receive
+  by_cases hfull : stOf W s.rows b = .full
+  · rw [if_pos ((indexedVal_iff W s.rows h.r2 b).mpr hfull)]
+    exact Or.inl ⟨hfull, rfl⟩
+  · rw [if_neg (fun hh => hfull ((indexedVal_iff W s.rows h.r2 b).mp hh))]
+    cases hfm : firstMissing W s.src b with
+    | some m => exact Or.inr (Or.inl ⟨m, hfull, rfl, rfl⟩)
+    | none =>
+      simp only
+      cases hdep : idep W b with
+      | none =>
+        simp only
+        exact Or.inr (Or.inr (Or.inr ⟨hfull, rfl, fun t ht => by cases ht, rfl⟩))
+      | some t =>
+        simp only
+        rw [metaType_eq W s h.r2 hc t]
+        by_cases hta : stOf W s.rows t = .absent
+        · rw [if_pos hta]
+          exact Or.inr (Or.inr (Or.inl ⟨t, hfull, rfl, rfl, hta, fun e => hW.2 b (by rw [hdep, e]), rfl⟩))
+        · rw [if_neg hta]
+          simp only
+          rw [fullRowsAt_eq W b t hdep]
+          exact Or.inr (Or.inr (Or.inr ⟨hfull, rfl, fun t' ht' => by cases ht'; exact hta, rfl⟩))
+
+theorem noteNeeded_J3 (s : State) (hj : J3 s) (b t : Ref) : J3 (s.noteNeeded b t) := by
+  intro x y
+  show (y, x) ∈ s.neededBy ++ [(t, b)] ↔ (x, y) ∈ s.needs ++ [(b, t)]
+  simp only [List.mem_append, List.mem_singleton, Prod.mk.injEq]
+  rw [hj x y]
+  constructor
+  · rintro (h1 | ⟨rfl, rfl⟩)
+    · exact Or.inl h1
+    · exact Or.inr ⟨rfl, rfl⟩
+  · rintro (h1 | ⟨rfl, rfl⟩)
+    · exact Or.inl h1
+    · exact Or.inr ⟨rfl, rfl⟩
+
+theorem union_congr_nonmissing (mm : List Row) (rows rows' : SMap Bytes)
+    (h : ∀ k, isMissingKey k = false → SMap.get rows' k = SMap.get rows k) (k : Bytes) (hk : isMissingKey k = false) :
+    SMap.get (SMap.union mm rows') k = SMap.get (SMap.union mm rows) k := by
+  rw [get_union, get_union, h k hk]
+
+/-- the rows (other than `missing|` rows), corpus and deletes cache after a committing ReceiveBlob -/
+theorem commit_shape (s s0 : State) (b : Ref) (mm : List Row) (r : Bool) (hk0 : KAsc s0.rows) (hj0 : J3 s0)
+    (hrows : ∀ k, isMissingKey k = false → SMap.get s0.rows k = SMap.get s.rows k)
+    (hcorp : s0.corpus = s.corpus) (hdel : s0.deletes = s.deletes) (rm : Bool) :
+    let s' := if rm then (s0.commitAll b mm r).removeAllMissingEdges b else s0.commitAll b mm r
+    (∀ k, isMissingKey k = false → SMap.get s'.rows k = SMap.get (SMap.union mm s.rows) k) ∧
+    s'.corpus = s.corpus.map (fun c => c.addBlob b mm r) ∧ s'.deletes = s.deletes ++ delsOfMM mm := by
+  obtain ⟨G1, G2, _, _, _, _, _⟩ := commitAll_spec s0 b mm r hk0 hj0
+  have hcorpus : (s0.commitAll b mm r).corpus = s.corpus.map (fun c => c.addBlob b mm r) := by
+    unfold State.commitAll
+    rw [(nbi_fields _ b).2.2]
+    unfold State.corpusAdd
+    show (match (s0.commit mm).corpus with | none => _ | some c => _).corpus = _
+    have : (s0.commit mm).corpus = s.corpus := hcorp
+    rw [this]
+    cases s.corpus <;> rfl
+  have hdeletes : (s0.commitAll b mm r).deletes = s.deletes ++ delsOfMM mm := by
+    unfold State.commitAll
+    rw [(nbi_fields _ b).2.1, (corpusAdd_fields _ b mm r).2.2.2.2.2]
+    show s0.deletes ++ delsOfMM mm = _
+    rw [hdel]
+  have hget : ∀ k, isMissingKey k = false → SMap.get (s0.commitAll b mm r).rows k = SMap.get (SMap.union mm s.rows) k :=
+    fun k hk => by rw [G2 k hk]; exact union_congr_nonmissing mm s.rows s0.rows hrows k hk
+  cases rm with
+  | false => exact ⟨hget, hcorpus, hdeletes⟩
+  | true =>
+    refine ⟨?_, hcorpus, hdeletes⟩
+    intro k hk
+    show SMap.get ((s0.commitAll b mm r).removeAllMissingEdges b).rows k = _
+    rw [rme_get _ b G1, keepNotOf_other b k hk, if_pos rfl, hget k hk]
+
+theorem mirrors_commit {W : World} {s s' : State} {b : Ref} {st' : Status} (hr : R2 W s.rows)
+    (hc : CorpusOk s) (hd : DelOk s) (hst : stOf W s.rows b ≠ .full) (hst' : st' ≠ .absent)
+    (h1 : ∀ k, isMissingKey k = false → SMap.get s'.rows k = SMap.get (SMap.union (rowsFor W st' b) s.rows) k)
+    (h2 : s'.corpus = s.corpus.map (fun c => c.addBlob b (rowsFor W st' b) (SMap.get s.rows (kHave b)).isSome))
+    (h3 : s'.deletes = s.deletes ++ delsOfMM (rowsFor W st' b)) : CorpusOk s' ∧ DelOk s' := by
+  constructor
+  · intro c' hc'
+    rw [h2] at hc'
+    cases hcs : s.corpus with
+    | none => rw [hcs] at hc'; cases hc'
+    | some c =>
+      rw [hcs] at hc'
+      have : c' = c.addBlob b (rowsFor W st' b) (SMap.get s.rows (kHave b)).isSome := (Option.some.inj hc').symm
+      rw [this]
+      exact addBlob_ok W s.rows c hr (hc c hcs) b hst st' hst' s'.rows h1
+  · intro d
+    obtain ⟨t, dl, date⟩ := d
+    rw [h3, List.mem_append, hd, mem_delsOfRows, mem_delsOfRows, delsOfMM, mem_delsOfRows,
+      h1 _ (by rfl : isMissingKey (kDeleted t date dl) = false), get_union]
+    cases SMap.get (rowsFor W st' b) (kDeleted t date dl) <;> simp
+
+/-- ReceiveBlob keeps the corpus and the deletes cache equal to what a load of the rows gives -/
+theorem mirrors_receive {W : World} {ver : Nat} {s : State} {seen : List Ref} {skip : Option Ref} (hW : WF W)
+    (h : Inv W ver s seen skip) (hc : CorpusOk s) (hd : DelOk s) (b : Ref) :
+    CorpusOk (s.receive W b) ∧ DelOk (s.receive W b) := by
+  rcases receive_cases hW h hc b with ⟨_, e⟩ | ⟨m, _, _, e⟩ | ⟨t, hst, _, _, _, _, e⟩ | ⟨hst, _, _, e⟩
+  · rw [e]; exact ⟨hc, hd⟩
+  · rw [e]
+    have hsame : ∀ k, isMissingKey k = false → SMap.get (s.noteNeeded b m).rows k = SMap.get s.rows k :=
+      fun k hk => ins_missing_get_other _ _ _ _ hk
+    exact ⟨fun c hcc => COk_congr _ _ c hsame (hc c hcc), fun d => by
+      show d ∈ s.deletes ↔ _
+      rw [hd, delsOfRows_congr _ _ hsame]⟩
+  · rw [e]
+    have hsame : ∀ k, isMissingKey k = false → SMap.get (s.noteNeeded b t).rows k = SMap.get s.rows k :=
+      fun k hk => ins_missing_get_other _ _ _ _ hk
+    obtain ⟨a1, a2, a3⟩ := commit_shape s (s.noteNeeded b t) b (rowsFor W .half b) (SMap.get s.rows (kHave b)).isSome
+      (kasc_ins _ _ h.kasc) (noteNeeded_J3 s h.j3 b t) hsame rfl rfl false
+    exact mirrors_commit h.r2 hc hd hst (by simp) a1 a2 a3
+  · rw [e]
+    obtain ⟨a1, a2, a3⟩ := commit_shape s s b (rowsFor W .full b) (SMap.get s.rows (kHave b)).isSome
+      h.kasc h.j3 (fun _ _ => rfl) rfl rfl true
+    exact mirrors_commit h.r2 hc hd hst (by simp) a1 a2 a3
+
 end Pk.Index
